@@ -365,7 +365,10 @@ def run_all(metas, specs, workdir, jobs):
         futs = {n: ex.submit(run_harness, metas[n], specs[n].get("unwind"), specs[n].get("cap_s", 240),
                              specs[n].get("mem_gb", 10), workdir, specs[n].get("extra_cbmc", ()),
                              specs[n].get("unwindset")) for n in order}
-        for n, f in futs.items():
+        from concurrent.futures import as_completed
+        inv = {f: n for n, f in futs.items()}
+        for f in as_completed(inv):
+            n = inv[f]
             try:
                 out[n] = f.result()
             except Exception as e:  # noqa
